@@ -196,6 +196,7 @@ func checkC11(cs *c11Case, o *pt.Obs) error {
 	}
 	started := time.Now()
 	lastStallCheck := started
+	var lastStall []string // goroutines of the most recent no-progress observation (diagnostics only)
 	for {
 		var pr *progResult
 		if err := c.Call(&sut.Req{Op: "c11_poll"}, &pr); err != nil {
@@ -223,6 +224,7 @@ func checkC11(cs *c11Case, o *pt.Obs) error {
 			if err := c.Call(&sut.Req{Op: "c11_stall"}, &b); err != nil {
 				continue
 			}
+			lastStall = b.Goroutines
 			var again *progResult
 			_ = c.Call(&sut.Req{Op: "c11_poll"}, &again)
 			if again != nil {
@@ -245,7 +247,11 @@ func checkC11(cs *c11Case, o *pt.Obs) error {
 	overlapRot := false
 	for si, s := range res.Searches {
 		if s.Err != "" {
-			return fmt.Errorf("search %d (%s) on %s answered with an error during concurrent activity: %s", si, s.Text, s.Index, s.Err)
+			diag := ""
+			if len(lastStall) > 0 {
+				diag = "\nsiglens goroutines while the programme was making no progress:\n" + strings.Join(lastStall, "\n")
+			}
+			return fmt.Errorf("search %d (%s) on %s answered with an error during concurrent activity: %s%s", si, s.Text, s.Index, s.Err, diag)
 		}
 		seen := map[int64]bool{}
 		for _, v := range s.Got {
